@@ -668,6 +668,35 @@ const TIED: &[&str] = &[
     "[\"ab\" \"cd\" \"cd\" \"ab\"]", "[\"ab\" \"ab\" \"cd\" \"cd\"]", "[[1 0 1] [0 1 1]]", "[[1 1 0] [1 1 0] [0 0 0]]",
 ];
 
+/// arrays without rows (and with rows without elements) of every element type
+const ROWLESS: &[&str] = &[
+    "[]", "\"\"", "↯0 □0", "↯0 ℂ0 0", "▽0 [1 2 3]", "↯0_2 0", "↯0_2 @a", "↯0_3 □0", "↯0_2 ℂ0 0", "↯2_0 0", "↯2_0 @a", "↯0_0 0",
+];
+
+/// every rule's trigger sequence on rowless arrays of every type: bare and under rows
+fn rowless_family() -> Vec<(String, String)> {
+    let mut out = Vec::new();
+    for (rule, snip, nargs) in RULES {
+        for r in ROWLESS {
+            match nargs {
+                1 => {
+                    out.push((rule.to_string(), format!("# Experimental!\n{snip} {r}\n")));
+                    out.push((rule.to_string(), format!("# Experimental!\n≡({snip}) {r}\n")));
+                    out.push((rule.to_string(), format!("# Experimental!\nF ← {snip}\nF {r}\n")));
+                }
+                2 => {
+                    out.push((rule.to_string(), format!("# Experimental!\n{snip} {r} [1 2]\n")));
+                    out.push((rule.to_string(), format!("# Experimental!\n{snip} [1 2] {r}\n")));
+                    out.push((rule.to_string(), format!("# Experimental!\n{snip} {r} {r}\n")));
+                    out.push((rule.to_string(), format!("# Experimental!\n{snip} 2 {r}\n")));
+                }
+                _ => {}
+            }
+        }
+    }
+    out
+}
+
 /// the directed family as (rule, source)
 fn marked_family() -> Vec<(String, String)> {
     let mut out = Vec::new();
@@ -842,25 +871,38 @@ fn main() {
                 ("reduce-table", "/↥⊞- [] ↯2_2_2⇡8", true),
                 ("reduce-table", "/↥⊞-ℂ0 [] [¯1 5]", true),
                 ("reduce-table", "/+⊞× ↘1\"\" 4", true),
-                // still open
+                // repaired in round 4: 080edaa / 340d8d5 (reduce-table), a04562f (conjoin-inventory scalar),
+                // 5f1c7e2 (rows on rowless arrays), 047a6f3 / 40e48d8 (map keys)
                 ("reduce-table", "/↥⊞- [3 4] ↯0_0 0", true),
-                ("reduce-content", "/◇⊂ ↯0 □0", true),
-                ("reverse-first", "≡(⊢⇌▽2) \"\"", true),
-                ("complex-i", "+×i \"\" □\"A\"", true),
-                ("by-to-dup", "≡(⊸+ 1) \"\"", true),
-                ("last-sort", "≡(⊣⍆) ↯0 □0", true),
-                ("memberof-range", "∊⇡ 3 map [1 2] [3 4]", false),
-                ("memberof-range-rerank", "∊☇1⇡ [4] \"ab\"", false),
-                ("conjoin-inventory", "/◇⊂⍚(⊂0) []", true),
+                ("reduce-table", "♭/↥⊞-▽2 ℂ0 0 [i ¯i 1]", false),
                 ("conjoin-inventory", "/◇⊂⍚⇌¤ @a", false),
+                ("reverse-first", "≡(⊢⇌▽2) \"\"", true),
+                ("by-to-dup", "≡(⊸+ 1) \"\"", true),
+                ("by-to-dup", "≡(⊸+ 1⊂0) []", true),
+                ("last-sort", "≡(⊣⍆) ↯0 □0", true),
+                ("reverse-last", "≡(¬⊣⇌⍆) ↯0_2 @a", true),
+                ("memberof-range", "∊⇡ 3 map [1 2] [3 4]", false),
+                ("rows-flip", "≡(⊂:) ¯2.5 ↘1 map [1 2] [3 4]", false),
+                // witness of the seeded mutation C01_count_unique_eq1_allsame
+                ("one-unique-eq", "=1⧻◴ ▽0 [1 2 3]", true),
+                // still open
+                ("reduce-table", "/↥⊞- [1 1] [NaN]", false),
+                ("conjoin-inventory", "/◇⊂⍚(⊂0) []", true),
                 ("reduce-content", "≡(¤/◇⊂) []", true),
+                ("reduce-content", "/◇⊂ ↯0 □0", true),
                 ("split-by-scalar-lit", "⊜□≠@ . [1 2]", false),
                 ("split-by-scalar-lit", "⊜□≠@ . @a", false),
                 ("split-by-scalar-lit", "⊜⧻≠0. 5", false),
                 ("split-by-scalar-lit", "⊜⧻≠0. {1 2}", false),
                 ("square-abs", "×.⌵ [ℂ3 2 ℂ1 2]", false),
+                ("square-abs", "×.⌵ \"\"", true),
+                ("square-abs", "≡(×.⌵) \"\"", true),
+                ("pow-neg1", "ⁿ¯1 \"\"", true),
+                ("sort-up", "≡(⊏⍏.) \"\"", true),
                 ("complex-i", "+×i NaN 2", false),
+                ("complex-i", "+×i \"\" □\"A\"", true),
                 ("memberof-range-deshape", "∊♭₂⇡ [3 4] \"abc\"", false),
+                ("memberof-range-rerank", "∊☇1⇡ [4] \"ab\"", false),
             ] {
                 progs.push((rule.to_string(), format!("# Experimental!\n{src}\n"), vec![], if empty { vec!["[]".into()] } else { vec![] }));
             }
@@ -870,6 +912,12 @@ fn main() {
             let family_n = family.len();
             for (rule, src) in family {
                 progs.push((rule, src, vec![], vec![]));
+            }
+            // directed family: every rule on rowless arrays of every type
+            let rowless = rowless_family();
+            let rowless_n = rowless.len();
+            for (rule, src) in rowless {
+                progs.push((rule, src, vec![], vec!["[]".into()]));
             }
             for _ in 0..n {
                 let p = gen_prog(&mut r);
@@ -949,7 +997,7 @@ fn main() {
                 }
             }
             let pr: Vec<String> = per_rule.iter().map(|(k, v)| format!("{}:[{},{}]", jstr(k), v.0, v.1)).collect();
-            println!("{{\"summary\":true,\"regression_programs\":{regression},\"marked_tied_programs\":{family_n},\"programs\":{},\"reference_ok\":{},\"reference_err\":{},\"violations\":{},\"converse\":{},\"corpus_items\":{},\"corpus_reference_ok\":{},\"per_rule_ok_err\":{{{}}}}}",
+            println!("{{\"summary\":true,\"regression_programs\":{regression},\"marked_tied_programs\":{family_n},\"rowless_programs\":{rowless_n},\"programs\":{},\"reference_ok\":{},\"reference_err\":{},\"violations\":{},\"converse\":{},\"corpus_items\":{},\"corpus_reference_ok\":{},\"per_rule_ok_err\":{{{}}}}}",
                 progs.len(), a_ok, a_err, viol, conv, corpus_n, corpus_ok, pr.join(","));
         }
         "fusedtie" => {
